@@ -114,6 +114,10 @@ type runner struct {
 	s   *hx.Session
 	b   *backend
 	ref map[int][][]byte // the reference: the chunk list of every entry
+	// dead: the case was cut short because the infs-backed B-tree handed back an EMPTY value for a chunk of an
+	// entry the last operation did not touch (a defect below streamingdata, finding C31-F2, which the
+	// ordered-collection model does not and should not reproduce). Nothing after that point is compared.
+	dead bool
 }
 
 func vals2s(vs []val) string {
@@ -145,6 +149,9 @@ func (r *runner) encodeAll(enc *sd.Encoder[int], vs []val) string {
 }
 
 func (r *runner) add(k int, vs []val) {
+	if r.dead {
+		return
+	}
 	enc, err := r.b.s.Add(r.ctx, k)
 	out := "err"
 	if err == nil {
@@ -167,6 +174,9 @@ func (r *runner) add(k int, vs []val) {
 }
 
 func (r *runner) update(k int, vs []val) {
+	if r.dead {
+		return
+	}
 	enc, err := r.b.s.Update(r.ctx, k)
 	out := "err"
 	if err == nil && enc == nil {
@@ -199,6 +209,9 @@ func (r *runner) update(k int, vs []val) {
 }
 
 func (r *runner) upsert(k int, vs []val) {
+	if r.dead {
+		return
+	}
 	enc, err := r.b.s.Upsert(r.ctx, k)
 	out := "err"
 	if err == nil && enc == nil {
@@ -218,6 +231,9 @@ func (r *runner) upsert(k int, vs []val) {
 }
 
 func (r *runner) addIfNotExist(k int, vs []val) {
+	if r.dead {
+		return
+	}
 	enc, err := r.b.s.AddIfNotExist(r.ctx, k)
 	out := "err"
 	if err == nil && enc == nil {
@@ -233,6 +249,9 @@ func (r *runner) addIfNotExist(k int, vs []val) {
 }
 
 func (r *runner) remove(k int) {
+	if r.dead {
+		return
+	}
 	ok, err := r.b.s.Remove(r.ctx, k)
 	out := "removed 0"
 	if err != nil {
@@ -300,6 +319,9 @@ func (r *runner) checkStream(op string, k int, got []byte, eof bool) {
 
 // get decodes the entry through the public path (GetCurrentValue's json.Decoder).
 func (r *runner) get(k int) {
+	if r.dead {
+		return
+	}
 	found, err := r.b.s.FindOne(r.ctx, k)
 	if err != nil {
 		r.s.Op(fmt.Sprintf("get %d", k), "err")
@@ -359,6 +381,9 @@ func (r *runner) get(k int) {
 
 // read drives reader.Read directly with the given buffer sizes.
 func (r *runner) read(k int, bufs []int) {
+	if r.dead {
+		return
+	}
 	bs := make([]string, len(bufs))
 	for i, b := range bufs {
 		bs[i] = strconv.Itoa(b)
@@ -413,6 +438,9 @@ func (r *runner) read(k int, bufs []int) {
 
 // dump lists the chunk keys left in the store and compares them with the reference.
 func (r *runner) dump(touched int) {
+	if r.dead {
+		return
+	}
 	type item struct {
 		k, i int
 		d    string
@@ -445,6 +473,20 @@ func (r *runner) dump(touched int) {
 	for i, it := range items {
 		parts[i] = fmt.Sprintf("%d:%d:%s", it.k, it.i, it.d)
 		have[[2]int{it.k, it.i}] = it.d
+	}
+	// a defect of the layer below (see runner.dead): report it through the oracle and stop comparing this case
+	if r.b.name == "infs" {
+		for k, cs := range r.ref {
+			for i, c := range cs {
+				if d := have[[2]int{k, i}]; k != touched && len(c) > 0 && d == dig(nil) {
+					r.s.Fail("C31/infs-untouched-chunk-reads-empty", "on the infs-backed store (values in their own segment) a chunk that was updated earlier in the transaction reads back EMPTY after chunks of ANOTHER entry are added or removed",
+						fmt.Sprintf("key %d chunk %d (%d bytes) empty after an operation on key %d", k, i, len(c), touched))
+					r.s.Hit("infs_case_cut_short_by_known_defect")
+					r.dead = true
+					return
+				}
+			}
+		}
 	}
 	// oracle: exactly the reference's chunk keys
 	for k, cs := range r.ref {
